@@ -33,8 +33,15 @@ type node struct {
 	dom []any
 	mk  func() []any
 
-	combine func(a, b any) any
-	empty   func() any // nil for a semigroup
+	combine func(a, b any) any // the current instance (re-installed by refresh)
+	empty   func() any         // nil for a semigroup
+	mkOps   func() ops         // constructs the library's instance anew
+	// history family (hist.go): a write into the referent of a value in place
+	mut       func(v any, pick int) bool
+	histOps   []histOp
+	mutable   bool
+	histMemo  string
+	histKnown bool
 	// eqv is extensional equality of values of the type (functions on a test domain, maps by
 	// content, nil == empty, lazy values by their result, pointers by target)
 	eqv  func(a, b any) bool
@@ -50,21 +57,53 @@ type node struct {
 	known bool
 }
 
+// inst is the typed shell: FACTORIES of the library's instance, so that every construction of an
+// enclosing instance constructs its components anew.
 type inst[T any] struct {
-	n  *node
-	m  fp.Monoid[T]    // nil for a semigroup-only instance
-	sg fp.Semigroup[T] // always set
+	n    *node
+	mkM  func() fp.Monoid[T]    // nil for a semigroup-only instance
+	mkSg func() fp.Semigroup[T] // always set
 }
 
-func finishM[T any](n *node, m fp.Monoid[T]) *inst[T] {
-	n.combine = func(a, b any) any { return m.Combine(a.(T), b.(T)) }
-	n.empty = func() any { return m.Empty() }
-	return &inst[T]{n, m, m}
+// ops is one constructed instance with its type erased.
+type ops struct {
+	combine func(a, b any) any
+	empty   func() any // nil for a semigroup
 }
 
-func finishS[T any](n *node, sg fp.Semigroup[T]) *inst[T] {
-	n.combine = func(a, b any) any { return sg.Combine(a.(T), b.(T)) }
-	return &inst[T]{n, nil, sg}
+func finishM[T any](n *node, mk func() fp.Monoid[T]) *inst[T] {
+	n.mkOps = func() ops {
+		m := mk()
+		return ops{func(a, b any) any { return m.Combine(a.(T), b.(T)) }, func() any { return m.Empty() }}
+	}
+	n.install(n.mkOps())
+	return &inst[T]{n, mk, func() fp.Semigroup[T] { return mk() }}
+}
+
+func finishS[T any](n *node, mk func() fp.Semigroup[T]) *inst[T] {
+	n.mkOps = func() ops {
+		sg := mk()
+		return ops{combine: func(a, b any) any { return sg.Combine(a.(T), b.(T)) }}
+	}
+	n.install(n.mkOps())
+	return &inst[T]{n, nil, mk}
+}
+
+func (n *node) install(o ops) { n.combine, n.empty = o.combine, o.empty }
+
+// refresh constructs the instance of n and of every component anew; the law family does it at the
+// start of every execution, so no instance outlives an execution.
+func (n *node) refresh() {
+	for _, k := range n.kids {
+		k.refresh()
+	}
+	n.install(n.mkOps())
+}
+
+// mval / sval wrap instances that are package variables of the library (there is only one).
+func mval[T any](m fp.Monoid[T]) func() fp.Monoid[T] { return func() fp.Monoid[T] { return m } }
+func sval[T any](sg fp.Semigroup[T]) func() fp.Semigroup[T] {
+	return func() fp.Semigroup[T] { return sg }
 }
 
 func newNode(pkg, ctor string, mkDom func() []any, eqv func(a, b any) bool, show func(any) string, kids ...*node) *node {
@@ -102,6 +141,7 @@ const domCap = 6
 // called again later (result-changed-later), and no operand — including the part of its backing
 // array beyond its length, which other live values may share — may be written (operand-modified).
 func (n *node) law(ia, ib, ic int) (law, msg, outcome string) {
+	n.refresh() // instances constructed for this execution
 	dom := n.mk()
 	a, b, c := dom[ia], dom[ib], dom[ic]
 	before := make([]string, len(dom))
@@ -298,6 +338,15 @@ func freshIntSeqs() [][]int {
 	return [][]int{nil, base[:1], base[:2], other[:1], grown, {}}
 }
 
+// writeFirstInt: s[0] = 7 or 8 (same array, new contents)
+func writeFirstInt(s []int, pick int) bool {
+	if len(s) == 0 {
+		return false
+	}
+	s[0] = 7 + pick
+	return true
+}
+
 func concatInts(a, b []int) []int { return append(append([]int{}, a...), b...) }
 
 func mergeSeqI() *inst[fp.Seq[int]] {
@@ -310,14 +359,16 @@ func mergeSeqI() *inst[fp.Seq[int]] {
 	}
 	n := named(newNode("monoid", "MergeSeq[int]", mk, func(a, b any) bool { return seqEq(a.(fp.Seq[int]), b.(fp.Seq[int])) }, func(v any) string { return showSlice(v.(fp.Seq[int])) }),
 		"concatenation (a then b)", fp.Seq[int]{}, func(a, b any) any { return fp.Seq[int](concatInts(a.(fp.Seq[int]), b.(fp.Seq[int]))) })
-	return finishM(n, monoid.MergeSeq[int]())
+	n.mut = func(v any, pick int) bool { return writeFirstInt(v.(fp.Seq[int]), pick) }
+	return finishM(n, monoid.MergeSeq[int])
 }
 
 func mergeSliceI() *inst[[]int] {
 	mk := func() []any { return anys(freshIntSeqs()) }
 	n := named(newNode("monoid", "MergeSlice[int]", mk, func(a, b any) bool { return seqEq(a.([]int), b.([]int)) }, func(v any) string { return showSlice(v.([]int)) }),
 		"concatenation (a then b)", []int{}, func(a, b any) any { return concatInts(a.([]int), b.([]int)) })
-	return finishM(n, monoid.MergeSlice[int]())
+	n.mut = func(v any, pick int) bool { return writeFirstInt(v.([]int), pick) }
+	return finishM(n, monoid.MergeSlice[int])
 }
 
 // maps are compared and shown through a plain Go map
@@ -378,7 +429,15 @@ func mergeGoMapI() *inst[kv] {
 	}
 	n := named(newNode("monoid", "MergeGoMap[string,int]", mk, func(a, b any) bool { return kvEq(a.(kv), b.(kv)) }, func(v any) string { return showKV(v.(kv)) }),
 		"union, the right operand wins on a common key", kv{}, func(a, b any) any { return unionRight(a.(kv), b.(kv)) })
-	return finishM(n, monoid.MergeGoMap[string, int]())
+	n.mut = func(v any, pick int) bool { // m["a"] = .. (same map)
+		m := v.(kv)
+		if m == nil {
+			return false
+		}
+		m["a"] = 5 + pick
+		return true
+	}
+	return finishM(n, monoid.MergeGoMap[string, int])
 }
 
 func fpMapToKV(m fp.Map[string, int]) kv {
@@ -433,7 +492,7 @@ func mergeMapI() *inst[fp.Map[string, int]] {
 		"union, the right operand wins on a common key", fp.Map[string, int]{}, func(a, b any) any {
 			return kvToFpMap(unionRight(fpMapToKV(a.(fp.Map[string, int])), fpMapToKV(b.(fp.Map[string, int]))), fp.Map[string, int]{})
 		})
-	return finishM(n, monoid.MergeMap[string, int]())
+	return finishM(n, monoid.MergeMap[string, int])
 }
 
 func setToKV(s fp.Set[int]) kv {
@@ -468,7 +527,7 @@ func mergeSetI() *inst[fp.Set[int]] {
 			}
 			return out
 		})
-	return finishM(n, monoid.MergeSet[int]())
+	return finishM(n, monoid.MergeSet[int])
 }
 
 // Endo over int: functions are compared extensionally on the test points
@@ -519,6 +578,13 @@ func optGet[T any](v any) (any, bool) {
 	return nil, false
 }
 
+func optMut(k *node, get func(any) (any, bool)) func(v any, pick int) bool {
+	return func(v any, pick int) bool {
+		e, ok := get(v)
+		return ok && k.doMut(e, pick)
+	}
+}
+
 func optEq(k *node, get func(any) (any, bool)) func(a, b any) bool {
 	return func(a, b any) bool {
 		av, aok := get(a)
@@ -552,12 +618,14 @@ func optionDom[T any](k *node) func() []any {
 
 func optionOf[T any](k *inst[T]) *inst[fp.Option[T]] {
 	n := newNode("monoid", "Option", optionDom[T](k.n), optEq(k.n, optGet[T]), optShow(k.n, optGet[T], "None", "Some(", ")"), k.n)
-	return finishM(n, monoid.Option(k.m))
+	n.mut = optMut(k.n, optGet[T])
+	return finishM(n, func() fp.Monoid[fp.Option[T]] { return monoid.Option(k.mkM()) })
 }
 
 func sgOptionOf[T any](k *inst[T]) *inst[fp.Option[T]] {
 	n := newNode("semigroup", "Option", optionDom[T](k.n), optEq(k.n, optGet[T]), optShow(k.n, optGet[T], "None", "Some(", ")"), k.n)
-	return finishS(n, semigroup.Option(k.sg))
+	n.mut = optMut(k.n, optGet[T])
+	return finishS(n, func() fp.Semigroup[fp.Option[T]] { return semigroup.Option(k.mkSg()) })
 }
 
 var errA, errB = errors.New("errA"), errors.New("errB")
@@ -589,7 +657,11 @@ func tryOf[T any](k *inst[T]) *inst[fp.Try[T]] {
 		return "Failure(" + x.Failed().Get().Error() + ")"
 	}
 	n := newNode("monoid", "Try", mk, eqv, show, k.n)
-	return finishM(n, monoid.Try(k.m))
+	n.mut = func(v any, pick int) bool {
+		x := v.(fp.Try[T])
+		return x.IsSuccess() && k.n.doMut(x.Get(), pick)
+	}
+	return finishM(n, func() fp.Monoid[fp.Try[T]] { return monoid.Try(k.mkM()) })
 }
 
 func dualNode[T any](pkg string, k *node) *node {
@@ -606,15 +678,16 @@ func dualNode[T any](pkg string, k *node) *node {
 	n.meaning = func(a, b any) (any, any, bool) {
 		return fp.Dual[T]{GetDual: k.combine(b.(fp.Dual[T]).GetDual, a.(fp.Dual[T]).GetDual).(T)}, nil, false
 	}
+	n.mut = func(v any, pick int) bool { return k.doMut(v.(fp.Dual[T]).GetDual, pick) }
 	return n
 }
 
 func dualOf[T any](k *inst[T]) *inst[fp.Dual[T]] {
-	return finishM(dualNode[T]("monoid", k.n), monoid.Dual(k.m))
+	return finishM(dualNode[T]("monoid", k.n), func() fp.Monoid[fp.Dual[T]] { return monoid.Dual(k.mkM()) })
 }
 
 func sgDualOf[T any](k *inst[T]) *inst[fp.Dual[T]] {
-	return finishS(dualNode[T]("semigroup", k.n), semigroup.Dual(k.sg))
+	return finishS(dualNode[T]("semigroup", k.n), func() fp.Semigroup[fp.Dual[T]] { return semigroup.Dual(k.mkSg()) })
 }
 
 func evalNode[T any](pkg string, k *node) *node {
@@ -635,11 +708,11 @@ func evalNode[T any](pkg string, k *node) *node {
 }
 
 func evalOf[T any](k *inst[T]) *inst[lazy.Eval[T]] {
-	return finishM(evalNode[T]("monoid", k.n), monoid.Eval(k.m))
+	return finishM(evalNode[T]("monoid", k.n), func() fp.Monoid[lazy.Eval[T]] { return monoid.Eval(k.mkM()) })
 }
 
 func sgEvalOf[T any](k *inst[T]) *inst[lazy.Eval[T]] {
-	return finishS(evalNode[T]("semigroup", k.n), semigroup.Eval(k.sg))
+	return finishS(evalNode[T]("semigroup", k.n), func() fp.Semigroup[lazy.Eval[T]] { return semigroup.Eval(k.mkSg()) })
 }
 
 func ptrNode[T any](pkg string, k *node) *node {
@@ -658,15 +731,25 @@ func ptrNode[T any](pkg string, k *node) *node {
 		}
 		return *p, true
 	}
-	return newNode(pkg, "Ptr", mk, optEq(k, get), optShow(k, get, "nil", "&", ""), k)
+	n := newNode(pkg, "Ptr", mk, optEq(k, get), optShow(k, get, "nil", "&", ""), k)
+	n.mut = func(v any, pick int) bool { // *p = another value of the pointee type (same address)
+		p := v.(*T)
+		if p == nil {
+			return false
+		}
+		d := k.mk()
+		*p = d[(1+pick)%len(d)].(T)
+		return true
+	}
+	return n
 }
 
 func ptrOf[T any](k *inst[T]) *inst[*T] {
-	return finishM(ptrNode[T]("monoid", k.n), monoid.Ptr(lazy.Call(func() fp.Monoid[T] { return k.m })))
+	return finishM(ptrNode[T]("monoid", k.n), func() fp.Monoid[*T] { return monoid.Ptr(lazy.Call(k.mkM)) })
 }
 
 func sgPtrOf[T any](k *inst[T]) *inst[*T] {
-	return finishS(ptrNode[T]("semigroup", k.n), semigroup.Ptr(lazy.Call(func() fp.Semigroup[T] { return k.sg })))
+	return finishS(ptrNode[T]("semigroup", k.n), func() fp.Semigroup[*T] { return semigroup.Ptr(lazy.Call(k.mkSg)) })
 }
 
 // box is the target type of IMap
@@ -683,15 +766,29 @@ func boxNode[T any](pkg string, k *node) *node {
 		}
 		return dom
 	}
-	return newNode(pkg, "IMap", mk, func(a, b any) bool { return k.eqv(a.(box[T]).v, b.(box[T]).v) }, func(v any) string { return "box{" + k.show(v.(box[T]).v) + "}" }, k)
+	n := newNode(pkg, "IMap", mk, func(a, b any) bool { return k.eqv(a.(box[T]).v, b.(box[T]).v) }, func(v any) string { return "box{" + k.show(v.(box[T]).v) + "}" }, k)
+	n.mut = func(v any, pick int) bool { return k.doMut(v.(box[T]).v, pick) }
+	return n
 }
 
 func imapOf[T any](k *inst[T]) *inst[box[T]] {
-	return finishM(boxNode[T]("monoid", k.n), monoid.IMap(k.m, boxIt[T], unboxIt[T]))
+	return finishM(boxNode[T]("monoid", k.n), func() fp.Monoid[box[T]] { return monoid.IMap(k.mkM(), boxIt[T], unboxIt[T]) })
 }
 
 func sgImapOf[T any](k *inst[T]) *inst[box[T]] {
-	return finishS(boxNode[T]("semigroup", k.n), semigroup.IMap(k.sg, boxIt[T], unboxIt[T]))
+	return finishS(boxNode[T]("semigroup", k.n), func() fp.Semigroup[box[T]] { return semigroup.IMap(k.mkSg(), boxIt[T], unboxIt[T]) })
+}
+
+// prodMut passes a write to the first component that has a mutable referent.
+func prodMut(kids []*node, split func(any) []any) func(v any, pick int) bool {
+	return func(v any, pick int) bool {
+		for j, c := range split(v) {
+			if j < len(kids) && kids[j].doMut(c, pick) {
+				return true
+			}
+		}
+		return false
+	}
 }
 
 func prodEq(kids []*node, split func(any) []any) func(a, b any) bool {
@@ -729,7 +826,8 @@ func tuple2Of[T any](k *inst[T]) *inst[fp.Tuple2[T, T]] {
 	split := func(v any) []any { t := v.(fp.Tuple2[T, T]); return []any{t.I1, t.I2} }
 	kids := []*node{k.n, k.n}
 	n := newNode("monoid", "Tuple2", mk, prodEq(kids, split), prodShow(kids, split, "(", ",", ")"), kids...)
-	return finishM(n, monoid.Tuple2(k.m, k.m))
+	n.mut = prodMut(kids, split)
+	return finishM(n, func() fp.Monoid[fp.Tuple2[T, T]] { return monoid.Tuple2(k.mkM(), k.mkM()) })
 }
 
 func hconsOf[T any](k *inst[T], nilI *inst[hlist.Nil]) *inst[hlist.Cons[T, hlist.Nil]] {
@@ -743,7 +841,8 @@ func hconsOf[T any](k *inst[T], nilI *inst[hlist.Nil]) *inst[hlist.Cons[T, hlist
 	split := func(v any) []any { c := v.(hlist.Cons[T, hlist.Nil]); return []any{c.Head(), hlist.Tail(c)} }
 	kids := []*node{k.n, nilI.n}
 	n := newNode("monoid", "HCons", mk, prodEq(kids, split), prodShow(kids, split, "", "::", ""), kids...)
-	return finishM(n, monoid.HCons(k.m, nilI.m))
+	n.mut = prodMut(kids, split)
+	return finishM(n, func() fp.Monoid[hlist.Cons[T, hlist.Nil]] { return monoid.HCons(k.mkM(), nilI.mkM()) })
 }
 
 // ---------- closure of the grammar to a depth bound ----------
